@@ -281,11 +281,22 @@ def stepFundPsbt (s : State) (sc : Scope) (a : Acct) : Option Nat → State × R
       | none => ({ s with mem := ld.2 }, .err .acctNotFound)
       | some _ => issue1 s { d := s.disk, m := ld.2, pend := [] } sc a true none
 
-/-- `InvalidateAccountCache` -/
-def inval (m : Mem) (sc : Scope) (a : Acct) : Mem := { m with accts := setRow m.accts sc a none }
+/-- `InvalidateAccountCache` (with `repo-patches/fix-C08-invalidate-account-cache-derive-on-unlock.diff`): drops the
+cached account, the cached addresses that belong to the account and its derive-on-unlock entries -/
+def inval (m : Mem) (sc : Scope) (a : Acct) : Mem :=
+  { m with
+    accts := setRow m.accts sc a none
+    addrs := fun sc' ad => if sc' = sc ∧ m.addrs sc' ad = some a then none else m.addrs sc' ad
+    pendU := m.pendU.filter fun p => !(p.1 == sc && p.2 == a) }
 
-/-- wallet.ImportAccount / ImportAccountDryRun (`n` preview addresses per branch) -/
-def stepImport (s : State) (dry : Bool) (sc : Scope) (nm : Name) (key : Key) (n : Nat) : State × Res :=
+/-- `InvalidateAccountCache` BEFORE that fix: only the account entry is dropped (kept for the counter-example
+theorems `C08_wallet_counterexample_unfixed_*`) -/
+def invalUnfixed (m : Mem) (sc : Scope) (a : Acct) : Mem := { m with accts := setRow m.accts sc a none }
+
+/-- wallet.ImportAccount / ImportAccountDryRun (`n` preview addresses per branch); `inval` = the cache invalidation
+the dry run performs -/
+def stepImportWith (inval : Mem → Scope → Acct → Mem) (s : State) (dry : Bool) (sc : Scope) (nm : Name) (key : Key)
+    (n : Nat) : State × Res :=
   if key = 0 then (s, .err .badKey) else
   let acct := s.disk.last sc + 1
   if nm = 0 then (s, .err .badName) else
@@ -310,6 +321,9 @@ def stepImport (s : State) (dry : Bool) (sc : Scope) (nm : Name) (key : Key) (n 
         match ld2.1 with
         | none => ({ s with mem := inval ld2.2 sc acct }, .err .acctNotFound)
         | some r' => ({ s with mem := inval ld2.2 sc acct }, .imported acct r' ext int)
+
+def stepImport (s : State) (dry : Bool) (sc : Scope) (nm : Name) (key : Key) (n : Nat) : State × Res :=
+  stepImportWith inval s dry sc nm key n
 
 /-- wallet.RenameAccount -/
 def stepRename (s : State) (sc : Scope) (a : Acct) (nm : Name) : State × Res :=
